@@ -31,9 +31,10 @@ mod listing {
     //!   `t:<COND>:<action>`          `trap -- 'action' COND`
     //!   `m:<octal>`                  `umask <octal>`
     //!   `o:<option>:<0|1>`           `set ±o option`
-    //!   `f:<name>:<body index>`      `'name'() body`   (`fq:` = name needs quoting, `fk:` = name is a keyword)
+    //!   `f:<name>:<body index>[:r]`  `'name'() body` [then `typeset -fr -- 'name'`]
+    //!                                (`fq:` = name needs quoting, `fk:` = name is a keyword)
     //! Observation: the texts printed by `alias`, `typeset -p`, `export -p`, `readonly -p`, `set`, `trap`,
-    //! `umask`, `set +o` (hex).  Oracle: every listing (also `umask -S`, `typeset -fp`) evaluated in a fresh
+    //! `umask`, `set +o` and the attribute lines (`typeset -fr [-- ]name`) of `typeset -fp` (hex).  Oracle: every listing (also `umask -S`, `typeset -fp`) evaluated in a fresh
     //! shell recreates what it lists (state snapshots compared), and every listed command line is made of
     //! literal-only words for the real lexer.
     use super::*;
@@ -204,6 +205,11 @@ mod listing {
                 ["o", o, st] => late.push_str(&format!("set {}o {}\n", if *st == "1" { '-' } else { '+' }, o)),
                 ["f" | "fq" | "fk", n, b] => {
                     sc.push_str(&format!("{}() {}\n", sq(&dec_str(n)?), BODIES.get(b.parse::<usize>().ok()?)?))
+                }
+                ["f" | "fq" | "fk", n, b, "r"] => {
+                    let name = sq(&dec_str(n)?);
+                    sc.push_str(&format!("{}() {}\n", name, BODIES.get(b.parse::<usize>().ok()?)?));
+                    sc.push_str(&format!("typeset -fr -- {name}\n"));
                 }
                 _ => return None,
             }
@@ -418,7 +424,15 @@ mod listing {
                 verdict.get_or_insert(format!("FAIL:{k}:not-literal-only"));
             }
         }
-        let obs: Vec<String> = KINDS.iter().take(8).enumerate().map(|(i, (k, _))| format!("{k}={}", h(texts[i]))).collect();
+        let mut obs: Vec<String> = KINDS.iter().take(8).enumerate().map(|(i, (k, _))| format!("{k}={}", h(texts[i]))).collect();
+        // attribute lines of `typeset -fp` (function bodies are not predicted by the model)
+        let fa: String = logical_lines(texts[9])
+            .unwrap_or_default()
+            .iter()
+            .filter(|l| l.starts_with("typeset -f"))
+            .map(|l| format!("{l}\n"))
+            .collect();
+        obs.push(format!("Fa={}", h(&fa)));
         emit(case, &obs.join(" "), &verdict.unwrap_or_else(|| "ok".into()));
     }
 
@@ -459,6 +473,7 @@ mod listing {
         let n = 1 + r.below(8);
         let mut ops: Vec<String> = vec![];
         let mut readonly: Vec<String> = vec![];
+        let mut ro_fns: Vec<String> = vec![];
         let mut arrays: Vec<String> = vec![];
         for _ in 0..n {
             match r.below(12) {
@@ -530,8 +545,12 @@ mod listing {
                         19 => r.pick(KEYWORDS).to_string(),
                         _ => weird(r, 3, true),
                     };
-                    if name.is_empty() {
+                    if name.is_empty() || ro_fns.contains(&name) {
                         continue;
+                    }
+                    let ro = r.chance(1, 3);
+                    if ro {
+                        ro_fns.push(name.clone());
                     }
                     let kind = if name.parse::<yash_syntax::parser::lex::Keyword>().is_ok() {
                         "fk"
@@ -540,7 +559,7 @@ mod listing {
                     } else {
                         "f"
                     };
-                    ops.push(format!("{}:{}:{}", kind, h(&name), r.below(BODIES.len())));
+                    ops.push(format!("{}:{}:{}{}", kind, h(&name), r.below(BODIES.len()), if ro { ":r" } else { "" }));
                 }
             }
         }
